@@ -165,11 +165,31 @@ namespace xsimd
         }
 
         // rotl
+        namespace detail
+        {
+            // shift count of a rotate, as operand of the unsigned view of the rotated batch
+            template <class U, class STy>
+            XSIMD_INLINE STy rotate_count(STy count) noexcept
+            {
+                return count;
+            }
+            template <class U, class T, class A>
+            XSIMD_INLINE batch<U, A> rotate_count(batch<T, A> const& count) noexcept
+            {
+                return bitwise_cast<U>(count);
+            }
+        }
+
         template <class A, class T, class STy>
         XSIMD_INLINE batch<T, A> rotl(batch<T, A> const& self, STy other, requires_arch<generic>) noexcept
         {
-            constexpr auto N = std::numeric_limits<T>::digits;
-            return (self << other) | (self >> (N - other));
+            // rotate the full-width bit pattern: on the unsigned view N is the lane width
+            // and the right shift is logical, for signed T as well
+            using U = typename std::make_unsigned<T>::type;
+            constexpr auto N = std::numeric_limits<U>::digits;
+            auto const uself = bitwise_cast<U>(self);
+            auto const count = detail::rotate_count<U>(other);
+            return bitwise_cast<T>((uself << count) | (uself >> (N - count)));
         }
 
         // rotr
